@@ -14,7 +14,8 @@ PROPS = {
                        "thorough": SEQ("C05", 1500, 60000)["thorough"] + [("sched", {"profile": "C05", "count": 1500, "per_case": 2000}), ("stress", {"count": 20000}), ("config", {"tier": "thorough"})]}, "design": "6/C05", "needs_memcrsd": True},
     "C06": {"suites": {"quick": SEQ("C06", 1500, 60000)["quick"] + [("sched", {"profile": "C06", "count": 100, "per_case": 60})],
                        "thorough": SEQ("C06", 1500, 60000)["thorough"] + [("sched", {"profile": "C06", "count": 1500, "per_case": 2000})]}, "design": "6/C06"},
-    "C07": {"suites": SEQ("C07", 1500, 60000), "design": "6/C07"},
+    "C07": {"suites": {"quick": SEQ("C07", 1500, 60000)["quick"] + [("policy", {"profile": "C07", "count": 300})],
+                       "thorough": SEQ("C07", 1500, 60000)["thorough"] + [("policy", {"profile": "C07", "count": 15000})]}, "design": "6/C07"},
     "C08": {"suites": {"quick": SEQ("C08", 1500, 60000)["quick"] + [("stress", {"count": 1000}), ("config", {"tier": "quick"})], "thorough": SEQ("C08", 1500, 60000)["thorough"] + [("stress", {"count": 20000}), ("config", {"tier": "thorough"})]}, "design": "6/C08", "needs_memcrsd": True},
     "C11": {"suites": {"quick": SEQ("C11", 1500, 60000)["quick"] + [("conn", {"profile": "C11", "count": 20, "tier": "quick"})],
                        "thorough": SEQ("C11", 1500, 60000)["thorough"] + [("conn", {"profile": "C11", "count": 400, "tier": "thorough"})]}, "design": "6/C11"},
